@@ -229,9 +229,11 @@ func c18ConstExprs(c *config, vals map[string][]int64) {
 		}
 	}
 	ces = append(ces, c18CE{op: "icmp", typ: "i1", rtype: types.I1, flags: ipreds,
-		want:   func(kw string) string { return fmt.Sprintf("pred(%d)", predVal["i"+kw]) },
-		text:   func(kw string) string { return fmt.Sprintf("icmp %s (i32 5, i32 2)", kw) },
-		build:  func(kw string) constant.Constant { return constant.NewICmp(enum.IPred(predVal["i"+kw]), i32(5), i32(2)) },
+		want: func(kw string) string { return fmt.Sprintf("pred(%d)", predVal["i"+kw]) },
+		text: func(kw string) string { return fmt.Sprintf("icmp %s (i32 5, i32 2)", kw) },
+		build: func(kw string) constant.Constant {
+			return constant.NewICmp(enum.IPred(predVal["i"+kw]), i32(5), i32(2))
+		},
 		pieces: func(kw string) []string { return []string{"icmp " + kw + " ("} }})
 	ces = append(ces, c18CE{op: "fcmp", typ: "i1", rtype: types.I1, flags: fpreds,
 		want: func(kw string) string { return fmt.Sprintf("pred(%d)", predVal["f"+kw]) },
